@@ -3098,6 +3098,9 @@ class Set(Collection):
             if removed: (to_add, setdata.removed) = (to_add - removed, removed - to_add)
             if added: added |= to_add
             else: setdata.added = to_add  # added may be None
+            # setdata.added / setdata.removed may have been replaced by new set objects above
+            added = setdata.added
+            removed = setdata.removed
         if to_remove:
             if added: (to_remove, setdata.added) = (to_remove - added, added - to_remove)
             if removed: removed |= to_remove
